@@ -176,7 +176,8 @@ func (nz *normalizer) sqlToBindvar(node SQLNode) *querypb.BindVariable {
 		var v sqltypes.Value
 		var err error
 		switch node.Type {
-		case StrVal:
+		case StrVal, PgEscapeString, HexVal, BitVal:
+			// every spelling that carries client bytes is replaced, not only plain quoted strings
 			v, err = sqltypes.NewValue(sqltypes.VarBinary, node.Val)
 		case IntVal:
 			v, err = sqltypes.NewValue(sqltypes.Int64, node.Val)
